@@ -164,6 +164,16 @@ def forbidden_scan(rel_dirs):
                     src = strip_coq_comments(open(p).read())
                     for m in FORBIDDEN.finditer(src):
                         hits.append('%s: %s' % (os.path.relpath(p, VERIF), m.group(0)))
+                    # a Variable / Hypothesis / Context outside a Section declares an axiom
+                    depth = 0
+                    for ln in src.splitlines():
+                        st = ln.strip()
+                        if re.match(r'^Section\s+\w+\s*\.', st):
+                            depth += 1
+                        elif re.match(r'^End\s+\w+\s*\.', st) and depth > 0:
+                            depth -= 1
+                        elif re.match(r'^(Variables?|Hypothes[ie]s|Context)\b', st) and depth == 0:
+                            hits.append('%s: %s outside a Section' % (os.path.relpath(p, VERIF), st[:40]))
     return hits
 
 
@@ -224,7 +234,7 @@ def proof_gate(pid, wd, extra_dirs=('Base',), targets=None):
         targets = ['coq/%s/%so' % (pid, f) for f in srcs if f != 'Props.v']
     ok, cmd, log = coq_make(targets)
     res = {'build_ok': ok, 'build_cmd': cmd, 'build_log': log[-3000:] if not ok else ''}
-    hits = forbidden_scan([pid] + list(extra_dirs))
+    hits = forbidden_scan([''])     # the whole development: properties import each other's models (C04 <- C05, ...)
     res['forbidden'] = hits
     if ok:
         pr = coq_props(pid, wd)
